@@ -17,6 +17,7 @@ import (
 	"strconv"
 	"strings"
 	"sync"
+	"time"
 
 	"verif/internal/dsl"
 	"verif/internal/gen"
@@ -39,6 +40,8 @@ type Built struct {
 	ImportPath string // import path of the package holding reg.go
 	CompileErr string
 	Skip       string // reason the case is not compiled (gogo rejected it, plugin failed, ...)
+	GogoMs     int64
+	TFMs       int64
 }
 
 // Module is a scratch module.
@@ -177,7 +180,9 @@ func (m *Module) generateOne(c *space.Case) *Built {
 	b.Dir = dir
 	os.MkdirAll(dir, 0o755)
 	fd := c.File.Descriptor()
+	t0 := time.Now()
 	b.Gogo = gen.Run(m.Tools.Gogo, dsl.RequestFD(fd, ""), m.WorkDir())
+	b.GogoMs = time.Since(t0).Milliseconds()
 	if b.Gogo.ExitCode != 0 || b.Gogo.Resp == nil || b.Gogo.Resp.Error != nil || len(b.Gogo.Resp.File) != 1 {
 		b.Skip = "protoc-gen-gogo rejects the descriptor: " + lastLine(b.Gogo.Stderr) + " " + b.Gogo.Resp.GetError()
 		return b
@@ -186,7 +191,13 @@ func (m *Module) generateOne(c *space.Case) *Built {
 	cfgPath := filepath.Join(dir, "config.yaml")
 	ioutil.WriteFile(cfgPath, []byte(b.YAML), 0o644)
 	b.Param = Param(cfgPath)
-	b.TF = gen.Run(m.Tools.Plugin, dsl.RequestFD(fd, b.Param), m.WorkDir())
+	req := dsl.RequestFD(fd, b.Param)
+	if os.Getenv("VERIF_KEEP") != "" {
+		ioutil.WriteFile(filepath.Join(dir, "request.bin"), req, 0o644)
+	}
+	t0 = time.Now()
+	b.TF = gen.Run(m.Tools.Plugin, req, m.WorkDir())
+	b.TFMs = time.Since(t0).Milliseconds()
 	for _, r := range c.Cfg.Types {
 		s, err := dsl.BuildSpec(c.File, c.Cfg, r)
 		if err != nil {
